@@ -82,3 +82,88 @@ def fmt_regs(vals):
 
 def diff_regs(a, b, ignore=()):
     return [(REGNAMES[i], a[i], b[i]) for i in range(30) if i not in ignore and a[i] != b[i]]
+
+# ------------------------------------------------------------------ machines for lock-step work
+
+def _tracer_class():
+    from skoolkit.pagingtracer import PagingTracer
+
+    class LockTracer(PagingTracer):
+        """Paging tracer (the real 0x7FFD/AY/border logic of skoolkit) + event log + deterministic inputs."""
+        def __init__(self, simulator, out7ffd=0, seed=0):
+            self.simulator = simulator
+            self.out7ffd = out7ffd
+            self.outfffd = 0
+            self.ay = [0] * 16
+            self.border = 7
+            self.outfe = 0
+            self.events = []
+            self.n = 0
+            self.seed = seed
+
+        def reset(self, out7ffd=0, seed=0):
+            self.__init__(self.simulator, out7ffd, seed)
+
+        def read_port(self, registers, port):
+            v = ((self.seed * 2654435761 + self.n * 40503 + port * 7) >> 3) & 0xFF
+            self.n += 1
+            self.events.append(('in', port, v, registers[25]))
+            return v
+
+        def write_port(self, registers, port, value, offset=0):
+            self.n += 1
+            self.events.append(('out', port, value, registers[25], offset))
+            PagingTracer.write_port(self, registers, port, value, offset)
+    return LockTracer
+
+_LT = None
+def LockTracer(*a, **k):
+    global _LT
+    if _LT is None:
+        _LT = _tracer_class()
+    return _LT(*a, **k)
+
+class Machine:
+    """One simulator with its own memory and tracer. image: list of 65536 ints (48K) or list of 8 lists of 16384 (128K)."""
+    def __init__(self, kind, image, regs, o7ffd=0, tracer=True, seed=0, logmem=False):
+        from skoolkit import simutils
+        from skoolkit.pagingtracer import Memory
+        self.kind = kind
+        self.is128 = len(image) == 8
+        cls = sim_class(kind)
+        if self.is128:
+            banks = [list(b) for b in image]
+            mem = Memory(banks, o7ffd)
+        else:
+            mem = list(image)
+            if logmem and kind in ('py', 'pycmio'):
+                lm = LogMem(mem)
+                lm.log = []
+                mem = lm
+        self.sim = simutils.from_memory(cls, mem)
+        set_regs(self.sim, regs)
+        self.tracer = None
+        if tracer:
+            self.tracer = LockTracer(self.sim, o7ffd, seed)
+            self.sim.set_tracer(self.tracer)
+
+    @property
+    def regs(self):
+        return list(self.sim.registers)
+
+    def step(self):
+        self.sim.run()
+
+    def flat(self):
+        """All of RAM as bytes (48K: 0x4000-0xFFFF; 128K: banks 0-7) + ROM area as seen now."""
+        m = self.sim.memory
+        if self.is128:
+            return b''.join(bytes(b) for b in m.banks), bytes(m.roms[0]) + bytes(m.roms[1])
+        return bytes(m[0x4000:]), bytes(m[:0x4000])
+
+    def mapping(self):
+        """Which physical things are visible (128K): read one byte per 16K slot is not enough; use identities where possible."""
+        m = self.sim.memory
+        if not self.is128:
+            return None
+        return getattr(m, 'o7ffd', None)
